@@ -42,6 +42,7 @@ public class BigField {
     public static Value NBitLen(Value a) { return IntValue.gen(b(a).bitLength()); }
     public static Value NHex(Value a) { return new StringValue("0x" + b(a).toString(16)); }
     public static Value NOfInt(Value i) { return s(b(i)); }
+    public static Value NFromHex(Value h) { return s(new BigInteger(((StringValue) h).getVal().toString().substring(2), 16)); }
     public static Value NToInt(Value a) { return IntValue.gen(b(a).intValueExact()); }
     public static Value NByteLen(Value a) { return IntValue.gen((b(a).bitLength() + 7) / 8); }
 }
